@@ -126,7 +126,7 @@ def genesis_node():
 
 def assemble(parent, txs, miner, timestamp, *, cb_outs=None, cb_height=None, cb_data=b'', cb_tx=None,
              height=None, target=None, prev=None, merkle=None, pow_ok=True, evid=None, evid_txs=None,
-             evid_parent=None, evid_height=None, all_txs=None, nonce0=0, max_tries=200000, fees=None,
+             evid_parent=None, evid_height=None, all_txs=None, nonce0=0, max_tries=30000, fees=None,
              no_evidence=False):
     """Build a Block on `parent` (Node, or None for a root).  Defaults give a fully valid block; each keyword
     overrides one ingredient.  `evid(sh, cs, bh) -> (sh, cs, bh)` post-processes the evidence;
@@ -153,12 +153,14 @@ def assemble(parent, txs, miner, timestamp, *, cb_outs=None, cb_height=None, cb_
     ep = parent if evid_parent is None else evid_parent
     etx = txl if evid_txs is None else evid_txs
     eh = h if evid_height is None else evid_height
+    ser_at = (lambda hh: ep.anc(hh).ser) if ep is not None else None
+    etx_ser = enc.enc_txlist(etx)
     for nonce in range(nonce0, nonce0 + max_tries):
         s = BlockSummary(h, pv, mr, timestamp, target, nonce & 0xffffffff)
         if no_evidence:      # unvalidated filler ancestors: only sampled from, never re-validated
             ev = (b'\x11' * 32, b'\x22' * 32, b'\x33' * 32)
         else:
-            ev = refmodel.evidence_for(s, eh, etx, (lambda hh: ep.anc(hh).ser) if ep is not None else None)
+            ev = refmodel.evidence_for(s, eh, etx, ser_at, etx_ser)
         if evid is not None:
             ev = evid(*ev)
         hdr = BlockHeader(s, PowEvidence(*ev))
